@@ -7,4 +7,5 @@ INVARIANT CountBounds
 INVARIANT CarryIsOne
 INVARIANT NoDigitsInvented
 INVARIANT TrimExact
+INVARIANT LenAgrees
 CHECK_DEADLOCK FALSE
